@@ -47,8 +47,8 @@ PAT_SAMPLES = {
 }
 
 FMT = {"date-time": "FDateTime", "date": "FDate", "time": "FTime", "ipv4": "FIP", "ipv6": "FIP"}
-FMT_GOOD = {"date-time": ["2024-01-02T03:04:05Z", "1999-12-31T23:59:59Z"], "date": ["2024-01-02", "1999-12-31"],
-            "time": ["03:04:05", "23:59:59"], "ipv4": ["192.168.0.1", "10.0.0.255"], "ipv6": ["::1", "2001:db8::1"]}
+FMT_GOOD = {"date-time": ["2024-01-02T03:04:05Z", "1999-12-31T23:59:59Z", "0001-01-01T00:00:00Z", "9999-12-31T23:59:59Z"], "date": ["2024-01-02", "1999-12-31", "0001-01-01", "9999-12-31"],
+            "time": ["03:04:05", "23:59:59", "00:00:00"], "ipv4": ["192.168.0.1", "10.0.0.255"], "ipv6": ["::1", "2001:db8::1"]}
 FMT_BAD = {"date-time": ["2024-01-02", "yesterday"], "date": ["2024-13-45", "02/01/2024"], "time": ["25:00:00", "noon"],
            "ipv4": ["300.1.1.1", "host"], "ipv6": ["::g", "host"]}
 FMT_ZERO = {'"0001-01-01T00:00:00Z"', '""', '"0001-01-01"', '"00:00:00"'}
@@ -591,7 +591,8 @@ def run_cases(ctx, cases, name, rows_fn=None, chunk=40):
                     continue
                 v = VERD.get(o["v"], 2)
                 val = "None"
-                if o["v"] == "ACC" and o.get("dump") is not None:
+                # a legal value that coincides with the zero value of its Go type is printed like "unset" by the dump: verdict only
+                if o["v"] == "ACC" and o.get("dump") is not None and not any(z in json.dumps(d["doc"]) for z in FMT_ZERO if z != '""'):
                     try:
                         val = "(Some %s)" % gval_term(o["dump"])
                     except ValueError:
